@@ -314,3 +314,82 @@ gen_stubs! { #[kani::unwind(26)] fn c01_generate_3_2() { generate_framing(3, 2, 
 gen_stubs! { #[kani::unwind(26)] fn c01_generate_3_empty() { generate_framing(3, 0, true) } }
 gen_stubs! { #[kani::unwind(26)] fn c01_generate_3_none() { generate_framing(3, 0, false) } }
 gen_stubs! { #[kani::unwind(26)] fn c01_generate_0_none() { generate_framing(0, 0, false) } }
+
+// ---------------------------------------------------------------------------
+// C01: the key a client encrypts under is the key the aggregation side re-derives
+// ---------------------------------------------------------------------------
+// `derive_random_values` returns arbitrary (r0, r1, r2) and records r0; the real `derive_key`
+// runs (real Strobe, permutation = random oracle); `share` records the secret it is given and
+// `Ciphertext::new` the key it is given.  Server side: `derive_ske_key(r0, epoch)` on the same
+// oracle.  Epoch bytes are arbitrary (not only UTF-8 text).
+pub static mut GEN_R0: [u8; 32] = [0u8; 32];
+pub static mut GEN_SHARED: [u8; 32] = [0u8; 32];
+pub static mut GEN_SHARED_LEN: usize = 0x5EED_0303;
+
+pub fn mg_derive_random_values_rec(_s: &sta_rs::MessageGenerator, _r: &[u8]) -> Vec<[u8; 32]> {
+    let a: [u8; 32] = kani::any();
+    let b: [u8; 32] = kani::any();
+    let c: [u8; 32] = kani::any();
+    unsafe { GEN_R0 = a; }
+    vec![a, b, c]
+}
+pub fn mg_share_rec(
+    s: &sta_rs::MessageGenerator,
+    r1: &[u8],
+    r2: &[u8],
+) -> Result<sta_rs::Share, Box<dyn std::error::Error>> {
+    unsafe {
+        GEN_SHARED_LEN = r1.len();
+        if r1.len() == 32 {
+            GEN_SHARED.copy_from_slice(r1);
+        }
+    }
+    mg_share_fixed(s, r1, r2)
+}
+
+fn key_agreement(en: usize) {
+    let m: [u8; 2] = kani::any();
+    let e: [u8; 2] = kani::any();
+    let t: u32 = kani::any();
+    let rnd: [u8; 32] = kani::any();
+    ro_reset();
+    let mg = sta_rs::MessageGenerator::new(sta_rs::SingleMeasurement::new(&m), t, &e[..en]);
+    let msg = sta_rs::Message::generate(&mg, &rnd, None);
+    assert!(msg.is_ok());
+    let (r0, shared, sl, used) = unsafe { (GEN_R0, GEN_SHARED, GEN_SHARED_LEN, GEN_KEY_USED) };
+    assert!(sl == 32, "the secret handed to the sharing layer is 32 bytes");
+    assert!(u128::from_le_bytes(crate::c04::first16(&shared)) == u128::from_le_bytes(crate::c04::first16(&r0))
+        && u128::from_le_bytes(crate::c04::last16(&shared)) == u128::from_le_bytes(crate::c04::last16(&r0)),
+        "the value that is secret-shared is the value the payload key is derived from");
+    let mut k = [0u8; 16];
+    sta_rs::derive_ske_key(&r0, &e[..en], &mut k);
+    assert!(u128::from_le_bytes(k) == u128::from_le_bytes(used),
+        "the aggregation side's derive_ske_key(recovered value, epoch) is the key the client encrypted under, for every epoch byte string");
+    kani::cover!(true, "reached");
+    kani::cover!(en > 0 && e[0] >= 0x80, "epoch that is not UTF-8 text");
+    core::mem::forget(msg);
+    core::mem::forget(mg);
+}
+macro_rules! agree_stubs {
+    ($(#[$m:meta])* fn $name:ident() $body:block) => {
+        #[kani::proof]
+        #[kani::stub(keccak::f1600, f1600_ro)]
+        #[kani::stub(<byteorder::LittleEndian as byteorder::ByteOrder>::read_u64_into, read_u64_into_25)]
+        #[kani::stub(<byteorder::LittleEndian as byteorder::ByteOrder>::write_u64_into, write_u64_into_25)]
+        #[kani::stub(<strobe_rs::Strobe as core::ops::Drop>::drop, strobe_drop_noop)]
+        #[kani::stub(<star_sharks::Fp as ff::PrimeField>::from_repr, fp_from_repr_spec)]
+        #[kani::stub(sta_rs::MessageGenerator::derive_random_values, mg_derive_random_values_rec)]
+        #[kani::stub(sta_rs::MessageGenerator::share, mg_share_rec)]
+        #[kani::stub(sta_rs::Ciphertext::new, ciphertext_new_record)]
+        #[kani::stub(zeroize::optimization_barrier, barrier_noop)]
+        #[kani::stub(<sta_rs::Share as core::ops::Drop>::drop, drop_noop_star_share)]
+        #[kani::stub(<adss::AccessStructure as core::ops::Drop>::drop, drop_noop_access)]
+        #[kani::stub(<sta_rs::MessageGenerator as core::ops::Drop>::drop, drop_noop_mg)]
+        #[kani::stub(<sta_rs::SingleMeasurement as core::ops::Drop>::drop, drop_noop_measurement)]
+        $(#[$m])*
+        fn $name() $body
+    };
+}
+agree_stubs! { #[kani::unwind(26)] fn c01_key_agreement_e2() { key_agreement(2) } }
+agree_stubs! { #[kani::unwind(26)] fn c01_key_agreement_e1() { key_agreement(1) } }
+agree_stubs! { #[kani::unwind(26)] fn c01_key_agreement_e0() { key_agreement(0) } }
